@@ -66,9 +66,10 @@ Inductive case :=
    algorithm of the entity), then sigver.verify_redirect_signature *)
 | Unit (T : list entry) (via : option string) (x : input nat nat) (o : output)
 (* through the stack: Entity.apply_binding, then Server.parse_authn_request(q[SAMLRequest], REDIRECT,
-   relay_state=q[RelayState], sigalg=q[SigAlg], signature=q[Signature]) at an IdP that knows `certs` for
-   the issuer; must = want_authn_requests_signed; observed: request accepted *)
-| Stack (T : list entry) (dflt : string) (x : input nat nat) (certs : list nat) (must : bool)
+   relay_state=q[RelayState], sigalg=q[SigAlg], signature=q[Signature]) at an IdP whose metadata publishes the
+   signing certificates `certs` for the issuer, in this order (CUnreadable = a KeyDescriptor whose octets are no
+   X.509 certificate); must = want_authn_requests_signed; observed: request accepted *)
+| Stack (T : list entry) (dflt : string) (x : input nat nat) (certs : list (certarg nat)) (must : bool)
         (so : sres) (accepted : bool).
 
 Definition mkx ks typ val rs alg sgn q vc own : input nat nat :=
@@ -94,13 +95,13 @@ Definition model_sign (T : list entry) (via : option string) (x : input nat nat)
   end.
 
 Definition model_verify (T : list entry) (x : input nat nat) : vres :=
-  verify_redirect_signature cert_of_T (verify_T T) (own x) (q x) (vc x).
+  verify_redirect_signature_c cert_of_T (verify_T T) (own x) (q x) (vc x).
 
-Definition model_accept (T : list entry) (x : input nat nat) (certs : list nat) (must : bool) : bool :=
+Definition model_accept (T : list entry) (x : input nat nat) (certs : list (certarg nat)) (must : bool) : bool :=
   match get (q x) K_REQ with
   | None => false       (* not generated: the request itself is always presented *)
   | Some origdoc =>
-      loads_redirect cert_of_T (verify_T T) (own x) certs must origdoc
+      loads_redirect_c cert_of_T (verify_T T) (own x) certs must origdoc
                      (get (q x) K_RS) (get (q x) K_ALG) (get (q x) K_SIG)
   end.
 
@@ -114,13 +115,14 @@ Definition agrees (c : case) : bool :=
 
 (* the stack variant of the spec: "verified" = request accepted, "the signer's certificate" = the signer's
    certificate is among those registered for the issuer *)
-Definition stack_spec_b (x : input nat nat) (certs : list nat) (must : bool) (so : sres) (acc : bool) : bool :=
+Definition stack_spec_b (x : input nat nat) (certs : list (certarg nat)) (must : bool) (so : sres) (acc : bool) : bool :=
   (* signing clauses: as in Spec.spec_b, evaluated with a verification result that triggers nothing *)
-  spec_b cert_of_T Nat.eqb (Build_input (ks x) (typ x) (val x) (rs x) (alg x) (sgn x) (q x) None (own x)) (so, VFalse)
+  spec_b cert_of_T Nat.eqb (Build_input (ks x) (typ x) (val x) (rs x) (alg x) (sgn x) (q x) CAbsent (own x)) (so, VFalse)
   && (negb must || negb (sgn x) ||
       match so with
       | SArgs args =>
-          let reg := existsb (Nat.eqb (ks x)) certs in
+          (* the signer's certificate is published (readably) for the issuer; unreadable entries are nobody's *)
+          let reg := existsb (fun ca => match ca with CCert n => Nat.eqb (ks x) n | _ => false end) certs in
           (negb (same_on_b keys5 (q x) args) || Bool.eqb acc reg)
           && (negb acc || (reg && same_on_b (keys4 x) (q x) args))
       | _ => true
